@@ -41,12 +41,19 @@ func ruleRACE(w *World, r *Report) {
 func checkGo(w *World, r *Report, parent *ssa.Function, g *ssa.Go) {
 	key := shortName(parent)
 	pos := w.ipos(g)
-	mc, ok := g.Call.Value.(*ssa.MakeClosure)
-	if !ok {
-		r.unk("RACE", key+":closure", pos, "go statement does not start a function literal")
+	// the worker: a function literal (its captures are checked) or a named function of the package
+	// (everything it uses is passed as an argument)
+	mc, _ := g.Call.Value.(*ssa.MakeClosure)
+	var lit *ssa.Function
+	if mc != nil {
+		lit = mc.Fn.(*ssa.Function)
+	} else if sf := g.Call.StaticCallee(); sf != nil && len(sf.Blocks) > 0 && sf.Pkg == parent.Pkg {
+		lit = sf
+		mc = &ssa.MakeClosure{Fn: sf} // no bindings
+	} else {
+		r.unk("RACE", key+":closure", pos, "go statement starts neither a function literal nor a function of this package")
 		return
 	}
-	lit := mc.Fn.(*ssa.Function)
 	// (a)
 	after := reachableBlocks(g.Block(), nil)
 	badA := ""
@@ -630,45 +637,77 @@ func checkApplySlice(w *World, r *Report) {
 		r.unk("RACE", "applyMatrixSlice", "-", "function not found")
 		return
 	}
-	in, out, outStart, outEnd, dataStart, dataEnd := fn.Params[1], fn.Params[2], fn.Params[3], fn.Params[4], fn.Params[5], fn.Params[6]
-	for _, b := range fn.Blocks {
-		for _, ins := range b.Instrs {
-			if st, ok := ins.(*ssa.Store); ok {
-				r.bad("RACE", "applyMatrixSlice:no-stores", w.ipos(st), "applyMatrixSlice stores to memory itself; only the kernels' out argument may be written")
-				return
+	in, out, outStart, outEnd, dataStart, dataEnd := ssa.Value(fn.Params[1]), ssa.Value(fn.Params[2]), ssa.Value(fn.Params[3]), ssa.Value(fn.Params[4]), ssa.Value(fn.Params[5]), ssa.Value(fn.Params[6])
+	// applyMatrixSlice and the private single-call-site helpers its body may have been moved into
+	var fns []*ssa.Function
+	for _, f := range region(fn) {
+		if f == fn || w.uniqueSite(f) != nil {
+			fns = append(fns, f)
+		}
+	}
+	for _, f := range fns {
+		for _, b := range f.Blocks {
+			for _, ins := range b.Instrs {
+				if st, ok := ins.(*ssa.Store); ok {
+					r.bad("RACE", "applyMatrixSlice:no-stores", w.ipos(st), "applyMatrixSlice stores to memory itself; only the kernels' out argument may be written")
+					return
+				}
 			}
 		}
 	}
 	r.ok("RACE", "applyMatrixSlice:no-stores", w.pos(fn.Pos()), "no store instruction; memory is written only by the kernels it calls")
-	n := 0
-	for _, c := range callInstrs(fn) {
-		name := staticCalleeShort(c.Common())
-		if strings.HasPrefix(name, "(gf2p16.Matrix).At") || name == "" {
-			if _, isB := c.Common().Value.(*ssa.Builtin); isB || name != "" {
-				continue
+	inFns := func(g *ssa.Function) bool {
+		for _, f := range fns {
+			if f == g {
+				return true
 			}
 		}
-		if name != "gf2p16.MulByteSliceLE" && name != "gf2p16.MulAndAddByteSliceLE" {
-			r.bad("RACE", "applyMatrixSlice:callee:"+name, w.ipos(c), "applyMatrixSlice calls "+calleeName(c.Common())+", whose effects are not analysed")
-			continue
+		return false
+	}
+	// rowOf: v is X[idx] (a load of an element of slice X); returns X and idx, both looked through helper parameters
+	rowOf := func(v ssa.Value) (ssa.Value, ssa.Value, bool) {
+		ld, ok := w.up(v).(*ssa.UnOp)
+		if !ok || ld.Op != token.MUL {
+			return nil, nil, false
 		}
-		n++
-		key := fmt.Sprintf("applyMatrixSlice:kernel-call#%d", n-1)
-		a := c.Common().Args
-		okOut, okIn := false, false
-		if sl, ok := a[2].(*ssa.Slice); ok && sl.Low == ssa.Value(dataStart) && sl.High == ssa.Value(dataEnd) {
-			if ld, ok := sl.X.(*ssa.UnOp); ok {
-				if ia, ok := ld.X.(*ssa.IndexAddr); ok && ia.X == ssa.Value(out) {
+		ia, ok := ld.X.(*ssa.IndexAddr)
+		if !ok {
+			return nil, nil, false
+		}
+		return w.up(ia.X), w.up(ia.Index), true
+	}
+	n := 0
+	for _, f := range fns {
+		for _, c := range callInstrs(f) {
+			name := staticCalleeShort(c.Common())
+			if strings.HasPrefix(name, "(gf2p16.Matrix).At") || name == "" {
+				if _, isB := c.Common().Value.(*ssa.Builtin); isB || name != "" {
+					continue
+				}
+			}
+			if callee := c.Common().StaticCallee(); callee != nil && inFns(callee) {
+				continue // a helper of the region, analysed here too
+			}
+			if name != "gf2p16.MulByteSliceLE" && name != "gf2p16.MulAndAddByteSliceLE" {
+				r.bad("RACE", "applyMatrixSlice:callee:"+name, w.ipos(c), "applyMatrixSlice calls "+calleeName(c.Common())+", whose effects are not analysed")
+				continue
+			}
+			n++
+			key := fmt.Sprintf("applyMatrixSlice:kernel-call#%d", n-1)
+			a := c.Common().Args
+			okOut, okIn := false, false
+			if sl, ok := w.up(a[2]).(*ssa.Slice); ok && sl.Low != nil && sl.High != nil && w.up(sl.Low) == dataStart && w.up(sl.High) == dataEnd {
+				if base, idx, ok := rowOf(sl.X); ok && base == out {
 					// index phi from outStart, bounded by outEnd
-					if phi, ok := ia.Index.(*ssa.Phi); ok {
+					if phi, ok := idx.(*ssa.Phi); ok {
 						st, bd := false, false
 						for _, e := range phi.Edges {
-							if e == ssa.Value(outStart) {
+							if w.up(e) == outStart {
 								st = true
 							}
 						}
-						for _, cm := range cmpsAt(c.Block()) {
-							if cm.Op == token.LSS && cm.X == ssa.Value(phi) && cm.Y == ssa.Value(outEnd) {
+						for _, cm := range w.factsAt(c) {
+							if cm.Op == token.LSS && cm.Y != nil && w.up(cm.X) == ssa.Value(phi) && w.up(cm.Y) == outEnd {
 								bd = true
 							}
 						}
@@ -676,21 +715,19 @@ func checkApplySlice(w *World, r *Report) {
 					}
 				}
 			}
-		}
-		if sl, ok := a[1].(*ssa.Slice); ok && sl.Low == ssa.Value(dataStart) && sl.High == ssa.Value(dataEnd) {
-			if ld, ok := sl.X.(*ssa.UnOp); ok {
-				if ia, ok := ld.X.(*ssa.IndexAddr); ok && ia.X == ssa.Value(in) {
+			if sl, ok := w.up(a[1]).(*ssa.Slice); ok && sl.Low != nil && sl.High != nil && w.up(sl.Low) == dataStart && w.up(sl.High) == dataEnd {
+				if base, _, ok := rowOf(sl.X); ok && base == in {
 					okIn = true
 				}
 			}
-		}
-		switch {
-		case !okOut:
-			r.bad("RACE", key, w.ipos(c), "the kernel's written argument is not out[i][dataStart:dataEnd] with outStart <= i < outEnd")
-		case !okIn:
-			r.bad("RACE", key, w.ipos(c), "the kernel's read argument is not in[j][dataStart:dataEnd]")
-		default:
-			r.ok("RACE", key, w.ipos(c), name+"(c, in[j][dataStart:dataEnd], out[i][dataStart:dataEnd]), outStart <= i < outEnd")
+			switch {
+			case !okOut:
+				r.bad("RACE", key, w.ipos(c), "the kernel's written argument is not out[i][dataStart:dataEnd] with outStart <= i < outEnd")
+			case !okIn:
+				r.bad("RACE", key, w.ipos(c), "the kernel's read argument is not in[j][dataStart:dataEnd]")
+			default:
+				r.ok("RACE", key, w.ipos(c), name+"(c, in[j][dataStart:dataEnd], out[i][dataStart:dataEnd]), outStart <= i < outEnd")
+			}
 		}
 	}
 	r.floor("RACE", "kernel calls in applyMatrixSlice", n, 2)
